@@ -301,7 +301,7 @@ func ruleR12c(c *Check) {
 // R12e: the filter conjunction
 func ruleR12e(c *Check) {
 	c.Rule("R12e", "the node filter returns true for a target only on a path where the type-selection, pattern and tag predicates returned true and the exclude-tag predicate returned false", 4)
-	fn := anchor(c, "R12e", "selection", "Selector", "nodeMatchesFilters")
+	fn := selectorFilterFunc(c, "R12e")
 	if fn == nil {
 		return
 	}
